@@ -498,7 +498,13 @@ F6Atoms == {[const |-> c] : c \in F6Vals} \cup {[enum |-> <<c, d>>] : c \in F6Sm
 F6Schemas(z) == UNION {F6Atoms, {[not |-> a] : a \in F6Atoms}, {[properties |-> [a |-> a]] : a \in F6Atoms},
                        {[items |-> a] : a \in F6Atoms}, {[contains |-> a] : a \in F6Atoms},
                        {[uniqueItems |-> TRUE], [uniqueItems |-> TRUE, minItems |-> 2], [items |-> [uniqueItems |-> TRUE]]}}
-F6Insts == UNION {F6Vals, {Arr(<<x, y>>) : x \in F6Small, y \in F6Small}, {Obj([a |-> x]) : x \in F6Vals},
+\* a duplicate separated from its twin by a DIFFERENT item that a simple hash is likely to confuse with it (null / false /
+\* 0 / "" / empty containers; sequences and members with the same concatenation): uniqueness is decided against
+\* EVERY earlier item
+F6Coll == {Null, Bool(FALSE), Num(R_0), Str(""), EmptyArr, EmptyObj, Arr(<<Null>>), Arr(<<Bool(FALSE)>>),
+           Arr(<<Str("ab"), Str("a")>>), Arr(<<Str("a"), Str("ba")>>), Obj([a |-> Str("ba")]), Obj([ab |-> Str("a")])}
+F6Insts == UNION {{Arr(<<x, y, x>>) : x \in F6Coll, y \in F6Coll},
+                  F6Vals, {Arr(<<x, y>>) : x \in F6Small, y \in F6Small}, {Obj([a |-> x]) : x \in F6Vals},
                   {Arr(<<Arr(<<x, y>>)>>) : x \in {Obj([a |-> Null]), Obj([b |-> Null])}, y \in {Obj([a |-> Null]), Obj([b |-> Null])}}}
 
 \* ------------------------------------------------------------ W wide values
